@@ -52,6 +52,19 @@ SCRIPTS = {
     'sandbox_attrs': "from pedal import *\nsb = get_sandbox()\nsb.allowed_time = 1\nsb.tracer_style = 'native'\nsb.full_traceback = True\nrun()\n",
     'pools': "from pedal import *\nset_pools(2)\ngently.override_for_pool('A', title='PoolA')\ngently('pooled')\n",
     'hook': "from pedal import *\nfrom pedal.core.report import MAIN_REPORT\nMAIN_REPORT.add_hook('pedal.report.add_feedback', lambda *a, **k: None)\ngently('hooked')\n",
+    'max_score': ("from pedal import *\nfrom pedal.environments.gradescope import set_maximum_score\nset_maximum_score(10)\n"
+                  "assert_equal(call('add', 1, 2), 3)\n"),
+    'override_base': ("from pedal import *\nfrom pedal.core.feedback import Feedback\nFeedback.override(muted=True)\n"
+                      "gently('silenced')\n"),
+    'override_assert': ("from pedal import *\nassert_equal.override(title='AE', priority='low')\n"
+                        "assert_equal(call('add', 1, 2), 4)\n"),
+    'plots': ("from pedal import *\nfrom pedal.extensions.plotting import assert_plot\nassert_plot('line', [1, 2, 3])\n"),
+    'inputs': "from pedal import *\nset_input(['zed', 'why'])\nrun()\nassert_output_contains(get_sandbox(), 'hi')\n",
+    'mock_module': ("from pedal import *\nget_sandbox().mock_module('helperlib', {'answer': 42}, 'helperlib')\nrun()\n"
+                    "gently('mocked')\n"),
+    'allow': "from pedal import *\nallow_function('exit')\nallow_module('pedal')\nrun()\ngently('allowed')\n",
+    'seeded': "from pedal import *\nfrom pedal.questions.setup import set_seed\nset_seed(7)\nset_pools(3)\ngently('seeded')\n",
+    'partial': "from pedal import *\ngive_partial(.25)\ncompliment('nice', score='+10%')\ngently('partial')\n",
     'plain': "from pedal import *\ngently('You did a thing', label='thing')\n",
     'nothing': "from pedal import *\n",
 }
@@ -66,6 +79,9 @@ SUBS = {
     'tifa': "def add(a, b):\n    return a + b\nprint(undefined_thing)\n",
     'modmutate': "import math\ndef add(a, b):\n    return a + b\nif add(0, 0):\n    math.pi = '3.14'\n",
     'moduse': "import math\ndef add(a, b):\n    return a + b\nradius = 2\nprint(math.pi + radius)\n",
+    'plot': "import matplotlib.pyplot as plt\ndef add(a, b):\n    return a + b\nplt.plot([1, 2, 3])\nplt.show()\n",
+    'usehelper': "def add(a, b):\n    return a + b\nimport helperlib\nprint(helperlib.answer)\n",
+    'exits': "def add(a, b):\n    return a + b\nimport pedal\nexit()\n",
     'nameerr': "def add(a, b):\n    return a + b\nimport math\nprint(math.sqrt('x'))\n",
 }
 ENVS = ['standard', 'blockpy', 'gradescope', 'terminal']
@@ -105,15 +121,16 @@ def gradings(tier):
         for p in SUBS:
             out.append((s, p, 'standard'))
     for env in ENVS[1:]:
-        for s in ('assert', 'override', 'override_template', 'suppress', 'formatter', 'crash', 'plain'):
+        for s in ('assert', 'override', 'override_template', 'suppress', 'formatter', 'crash', 'plain', 'max_score', 'partial'):
             for p in ('good', 'runtime', 'syntax', 'tifa'):
                 out.append((s, p, env))
     return out
 
 
 CORE_SCRIPTS = ['assert', 'override', 'override_template', 'override_tifa', 'suppress', 'formatter', 'mock', 'sections_open',
-                'crash', 'group_crash', 'sandbox_attrs', 'nothing']
-CORE_SUBS = ['good', 'wrong', 'syntax', 'runtime', 'tifa', 'io', 'modmutate', 'moduse']
+                'crash', 'group_crash', 'sandbox_attrs', 'nothing', 'override_base', 'override_assert', 'inputs', 'mock_module',
+                'partial']
+CORE_SUBS = ['good', 'wrong', 'syntax', 'runtime', 'tifa', 'io', 'modmutate', 'moduse', 'usehelper']
 
 
 def compute_references(keys):
@@ -153,8 +170,9 @@ def make_body(keys, length):
         ctx.set_sample([list(h) for h in hist])
         mutators = {'override', 'override_template', 'override_tifa', 'override_source', 'suppress', 'suppress_label',
                     'formatter', 'mock', 'sections', 'sections_open', 'crash', 'group_crash', 'tifa_mod', 'hide',
-                    'sandbox_attrs', 'pools', 'hook'}
-        if any(h[0] in mutators or h[1] == 'modmutate' for h in hist[:-1]):
+                    'sandbox_attrs', 'pools', 'hook', 'max_score', 'override_base', 'override_assert', 'plots', 'inputs',
+                    'mock_module', 'allow', 'seeded', 'partial'}
+        if any(h[0] in mutators or h[1] in ('modmutate', 'plot') for h in hist[:-1]):
             ctx.mark_nontrivial(repr(hist))
         for pos, k in enumerate(hist):
             ctx.step(('grade',) + tuple(k))
@@ -186,6 +204,7 @@ def phases(tier):
     core = [(s, p, 'standard') for s in CORE_SCRIPTS for p in CORE_SUBS]
     envcore = [(s, p, e) for e in ENVS[1:] for s in ('override_template', 'override', 'formatter', 'plain')
                for p in ('runtime', 'good', 'syntax')]
+    envcore += [('max_score', p, 'gradescope') for p in ('good', 'runtime')]
     allg = gradings(tier)
     keys_pairs = core + envcore if tier == 'quick' else allg
     compute_references(sorted(set(keys_pairs)))
